@@ -14,6 +14,37 @@ def run_cancel(rep, count, mode_args, with_invalid):
     rc, out = verif.sh(" ".join(gen) + " > " + cases, shell=True, timeout=600)
     if rc != 0:
         raise RuntimeError("gen_script_cases failed: " + out[-500:])
+    if not mode_args:
+        # C16 only: statement boundaries that are not semicolons (the parser accepts `SELECT 1 SELECT 2 DROP TABLE a`), and
+        # PARALLEL WITH chains (one top-level statement built from several statement parses)
+        import random
+        rnd = random.Random(rep.seed)
+        stmts = [l.strip() for l in open(CORPUS, encoding="utf-8", errors="surrogateescape") if 8 < len(l) < 200 and l[:1].isalpha()]
+        extra = []
+        for i in range(max(40, count // 8)):
+            k = rnd.choice([2, 3, 4, 5, 6])
+            parts = [rnd.choice(stmts) for _ in range(k)]
+            sep = rnd.choice([" ", "\n", "\n\n", " /* c */ ", "\t"])
+            extra.append(sep.join(parts))
+        for i in range(max(20, count // 20)):
+            k = rnd.choice([2, 3, 4])
+            chain = " PARALLEL WITH ".join(rnd.choice(["SELECT %d" % j, "DROP TABLE t%d" % j, "SELECT %d FROM t" % j]) for j in range(k))
+            tail = rnd.choice(["", "; SELECT 9", "; " + rnd.choice(stmts)])
+            head = rnd.choice(["", "SELECT 0; "])
+            extra.append(head + chain + tail)
+        with open(cases, "a") as f:
+            for e in extra:
+                f.write(e.encode("utf-8", "surrogateescape").hex() + "\n")
+    if mode_args == ["-semis"]:
+        # C06: a few very long scripts (hundreds of KiB): a statement must be parsed the same at any distance from the start
+        import random
+        rnd = random.Random(rep.seed + 1)
+        stmts = [l.strip() for l in open(CORPUS, encoding="utf-8", errors="surrogateescape") if 30 < len(l) < 160 and l[:6].lower() == "select" and ";" not in l and "--" not in l]
+        with open(cases, "a") as f:
+            for n in ([5000] if count <= 5000 else [5000, 9000, 12000]):
+                parts = [rnd.choice(stmts) for _ in range(n)]
+                script = ";\n".join(parts)
+                f.write("\t".join(x.encode("utf-8", "surrogateescape").hex() for x in [script] + parts) + "\n")
     outp = cases + ".out"
     rc, err = verif.parallel_map_files([os.path.join(verif.BUILD, "cancel")] + mode_args, cases, outp, timeout=3000)
     res = {"scripts": 0, "runs": 0, "violations": [], "rc": rc, "err": err[-500:], "samples": [], "multi": 0}
